@@ -374,6 +374,10 @@ theorem goEq_trans {a b c : Val} (ha : P a) (hb : P b) (hc : P c) (h1 : goEq a b
 
 end KeySet
 
+/-- the NaN-free values of the shape of `k0` form a key set -/
+theorem keySet_keyLike (k0 : Val) : KeySet (fun k => keyLike k0 k = true ∧ nanFree k = true) :=
+  ⟨fun a b ha hb => keyLike_trans (by rw [keyLike_symm]; exact ha.1) hb.1, fun _ ha => ha.2⟩
+
 /-! ## entry spines -/
 
 /-- key of an entry (`snil` for a non-entry) -/
@@ -1048,6 +1052,16 @@ theorem keysIn_typed {env : Env} {K V : Ty} {es : Val} (h : entriesHaveType env 
   rw [entriesHaveType_iff_mem] at h
   rw [nanFree_iff_mem hs] at hn
   exact ⟨hs, fun e he => ⟨(h.2 e he).1, nanFree_ekey (hn e he)⟩⟩
+
+/-- key uniqueness for typed maps: two NaN-free maps of one type with the same number of entries,
+every key of the first present in the second, have key-sorted entry sequences that agree
+position-wise on keys -/
+theorem sortEntries_keysAgree_typed {env : Env} (hf : env.flagsOk = true) {K V : Ty} {xs ys : Val}
+    (hc : canEqual env K = true) (hxs : entriesHaveType env K V xs = true)
+    (hys : entriesHaveType env K V ys = true) (nx : nanFree xs = true) (ny : nanFree ys = true)
+    (dx : keysDistinct xs = true) (dy : keysDistinct ys = true) (hl : xs.slen = ys.slen)
+    (sub : KeysSub xs.toList ys.toList) : keysAgree (sortEntries xs) (sortEntries ys) :=
+  sortEntries_keysAgree (keySet_typed hf hc) (keysIn_typed hxs nx) (keysIn_typed hys ny) dx dy hl sub
 
 end Cmp
 
